@@ -7,6 +7,7 @@ import (
 	"io"
 	"log"
 	"os"
+	"strconv"
 )
 
 // indentWriter is a custom writer that adds an indent to the start of each line
@@ -87,7 +88,8 @@ func ExportJSON(c *Collection, w io.Writer) error {
 			if j > 0 {
 				fmt.Fprint(w, ", ")
 			}
-			fmt.Fprintf(w, "%f", v)
+			// shortest decimal that reads back as exactly this float64
+			fmt.Fprint(w, strconv.FormatFloat(v, 'g', -1, 64))
 		}
 		fmt.Fprint(w, "],\n    \"metadata\": ")
 
